@@ -12,7 +12,7 @@ warnings.simplefilter("ignore")
 from pams.order import LIMIT_ORDER, MARKET_ORDER, Order  # noqa: E402
 
 ID = "C02"
-RULE = ("(machine) histories as for C01 biased to few price levels, equal times, partial fills and removals from the "
+RULE = ("(machine histories also contain pending orders rewritten before acceptance -- constructed as a market order, accepted as a limit order and vice versa -- and, one in three, a book that crosses while the market is closed and is carried over 1-2 clock steps) (machine) histories as for C01 biased to few price levels, equal times, partial fills and removals from the "
         "middle of the heap; per round no filled order may be preceded (key: market first, better price, earlier "
         "acceptance, lower id -- written in the harness) by an order with unfilled volume, and after EVERY op the book's "
         "best order equals the ranking's top; non-trivial = a round in which >=3 orders compete on one side with a tie "
